@@ -107,7 +107,7 @@ func (p *proxy) call(ctx erpc.UnknownCallCtx) (interface{}, *erpc.Status) {
 	)
 	if len(realIPBytes) == 0 {
 		label.RealIP = ctx.IP()
-		settings = append(settings, erpc.WithAddMeta(erpc.MetaRealIP, label.RealIP))
+		settings = append(settings, erpc.WithSetMeta(erpc.MetaRealIP, label.RealIP))
 	} else {
 		label.RealIP = goutil.BytesToString(realIPBytes)
 	}
@@ -139,7 +139,7 @@ func (p *proxy) push(ctx erpc.UnknownPushCtx) *erpc.Status {
 	})
 	if realIPBytes := ctx.PeekMeta(erpc.MetaRealIP); len(realIPBytes) == 0 {
 		label.RealIP = ctx.IP()
-		settings = append(settings, erpc.WithAddMeta(erpc.MetaRealIP, label.RealIP))
+		settings = append(settings, erpc.WithSetMeta(erpc.MetaRealIP, label.RealIP))
 	} else {
 		label.RealIP = goutil.BytesToString(realIPBytes)
 	}
